@@ -14,6 +14,7 @@ CONSTANTS FieldSets, VftSets, EnumSets, Ptrs, Pairs
 
 (* field lists of T: each <<name, type key, addr>> *)
 FT(k) == CASE k = "u8" -> TNm("u8") [] k = "u16" -> TNm("u16") [] k = "u32" -> TNm("u32") [] k = "ptr" -> TCPtr(TNm("u8"))
+           [] k = "V" -> TNm("V") [] k = "unk8" -> TUnk(8) [] k = "unk16" -> TUnk(16)
            [] k = "unk4" -> TUnk(4) [] k = "unk2" -> TUnk(2) [] k = "arr" -> TArr(TNm("u16"), 2) [] OTHER -> TNm("u64")
 QFieldSets ==
   {<< <<"a", "u32", None>>, <<"b", "u32", None>> >>,
@@ -23,6 +24,11 @@ QFieldSets ==
    << <<"a", "ptr", None>>, <<"b", "ptr", None>> >>,
    << <<"a", "u32", 4>>, <<"b", "u16", None>>, <<"c", "u16", None>> >>,
    << <<"a", "u8", None>>, <<"b", "u8", None>>, <<"c", "u16", None>>, <<"d", "u32", 8>> >>,
+   (* a base that carries the vftable pointer: first, or behind a gap *)
+   << <<"b", "V", None>>, <<"x", "ptr", None>> >>,
+   << <<"b", "V", 0>>, <<"x", "ptr", None>> >>,
+   << <<"_", "unk16", None>>, <<"b", "V", None>>, <<"x", "ptr", None>> >>,
+   << <<"b", "V", 16>>, <<"x", "ptr", None>> >>,
    << >>}
 (* thorough: every list of up to three fields over the palette with addresses *)
 TKeys == {"u8", "u16", "u32", "ptr", "unk4", "arr", "u64"}
@@ -37,8 +43,8 @@ QVftSets == {<<None, None, None, None>>, <<None, 2, None, None>>, <<1, None, 4, 
 QEnumSets == {<<None, None, None>>, <<3, None, None>>, <<None, 7, None>>, <<0 - 2, None, 5>>}
 
 MkT(fs, size) ==
-  [TypeDef("T", "pub", [i \in DOMAIN fs |-> Field(fs[i][1], "pub", <<>>, FT(fs[i][2]), fs[i][3], FALSE)])
-     EXCEPT !.size = size, !.align = 4]
+  [TypeDef("T", "pub", [i \in DOMAIN fs |-> Field(fs[i][1], "pub", <<>>, FT(fs[i][2]), fs[i][3], fs[i][2] = "V")])
+     EXCEPT !.size = size, !.align = IF \E i \in DOMAIN fs : fs[i][2] = "V" THEN None ELSE 4]
 MkV(vs) ==
   [TypeDef("V", "pub", <<Field("w", "pub", <<>>, TCPtr(TNm("u8")), None, FALSE)>>)
      EXCEPT !.vft = Vft(vs[4], <<Func("f1", "pub", <<>>, <<ArgM>>, TNone, None, vs[1], ""),
